@@ -163,7 +163,8 @@ Theorem duplex_shared_state_synchronised :
   duplex_response_written_only_in_make_request = true /\
   duplex_response_read_only_after_ready = true /\
   duplex_ready_closed_by_defer_in_make_request = true /\
-  duplex_goroutine_started_through_once = true.
+  duplex_goroutine_started_through_once = true /\
+  duplex_other_channels_closed_through_once = true.
 Proof. exact source_synchronisation_facts. Qed.
 Print Assumptions duplex_shared_state_synchronised.
 
